@@ -128,6 +128,45 @@ class GenValue:
                 raise v
 
 
+    # -- the generator as the body of a @contextmanager: run to the yield, later resume (normally or with the exception of the block)
+    def open(self):
+        import queue
+        import threading
+        self._to_gen, self._to_cons = queue.Queue(), queue.Queue()
+
+        def yield_fn(v):
+            self._to_cons.put(("item", v))
+            msg = self._to_gen.get()
+            if isinstance(msg, BaseException):
+                raise msg
+
+        def body():
+            self._to_gen.get()
+            try:
+                self._start(yield_fn)
+                self._to_cons.put(("done", None))
+            except BaseException as e:
+                self._to_cons.put(("error", e))
+        threading.Thread(target=body, daemon=True).start()
+        self._to_gen.put(None)
+        kind, v = self._to_cons.get()
+        if kind == "item":
+            return v
+        if kind == "done":
+            raise Raised("RuntimeError: generator didn't yield")
+        raise v
+
+    def close(self, exc=None) -> bool:
+        """resume after the yield; True when an exception thrown in was swallowed by the generator"""
+        self._to_gen.put(exc)
+        kind, v = self._to_cons.get()
+        if kind == "done":
+            return exc is not None
+        if kind == "item":
+            raise Raised("RuntimeError: generator didn't stop")
+        raise v
+
+
 class Raised(Exception):
     def __init__(self, what: str):
         self.what = what
@@ -170,7 +209,8 @@ class Machine:
         """attrs(dotted text) -> value | NotImplemented;  call(machine, node, name, args, kwargs) -> value | NotImplemented;
         undecided(test text) -> the branch to take for a test the model cannot decide, or None (-> Undecidable)."""
         self.env = dict(env)
-        self.globals_ = {k: v for k, v in env.items() if isinstance(v, Closure) and v.machine is None or k.isupper() or k.startswith("_")}
+        self.globals_ = {k: v for k, v in env.items() if isinstance(v, Closure) and v.machine is None or k.isupper() or k.startswith("_")
+                         or isinstance(v, RecordType) or k == "<class constants>" or k in env.get("<class constants>", ())}
         self.attrs, self.call_hook, self.fuel, self.undecided = attrs, call, fuel, undecided
         self.stores: List[tuple] = []
         self.attr_stores: List[tuple] = []
@@ -195,9 +235,18 @@ class Machine:
                 v = self.attrs(ast.unparse(e))
                 if v is not NotImplemented:
                     return v
+            # a NamedTuple class nested in a class, a constant of the class body: `self._Candidate`, `DataHandler._CLOCK_KEYS`
+            if isinstance(e.value, ast.Name):
+                nested = [v_ for k_, v_ in self.env.items() if isinstance(k_, str) and k_.endswith("." + e.attr) and k_.count(".") == 1
+                          and (isinstance(v_, RecordType) or k_ in self.env.get("<class constants>", ()))]
+                if len(nested) == 1 and (e.value.id in ("self", "cls") and self.env.get(e.value.id) in (Opaque("self"), Opaque("cls"))
+                                         or f"{e.value.id}.{e.attr}" in self.env):
+                    return nested[0]
             base = self.ev(e.value)
             if isinstance(base, Record) and e.attr in base.values:
                 return base.values[e.attr]
+            if isinstance(base, (Record, RecordType)) and e.attr == "_fields":
+                return tuple(base.rtype.fields if isinstance(base, Record) else base.fields)
             if isinstance(base, Opaque):
                 text = f"{base.text}.{e.attr}"
                 v = self.attrs(text)
@@ -278,6 +327,9 @@ class Machine:
             idx = self.ev(e.slice) if not isinstance(e.slice, ast.Slice) else None
             if isinstance(base, dict) and idx in base:
                 return base[idx]
+            if isinstance(base, dict) and isinstance(idx, (str, int, tuple)) and all(isinstance(k_, (str, int, tuple)) for k_ in base) \
+                    and not isinstance(e.slice, ast.Slice):
+                raise Raised(f"KeyError: {idx!r}")
             if isinstance(base, Record) and isinstance(idx, int) and -len(base) <= idx < len(base):
                 return list(base.values.values())[idx]
             if isinstance(base, str) and isinstance(idx, int) and -len(base) <= idx < len(base):
@@ -505,7 +557,9 @@ class Machine:
                 kind_, val_ = sub.run_function(node)
                 if kind_ == "raise":
                     raise Raised(val_)
-            return GenValue(start)
+            g = GenValue(start)
+            g.is_context_manager = any(ast.unparse(d).split(".")[-1] == "contextmanager" for d in node.decorator_list)
+            return g
         self.depth = getattr(self, "depth", 0) + 1
         if self.depth > 12:
             raise Undecidable("closure recursion too deep for the model")
@@ -536,11 +590,18 @@ class Machine:
         if isinstance(e.func, ast.Name) and isinstance(self.env.get(e.func.id), RecordType):
             args_, kwargs_ = self.arguments(e)
             return self.make_record(self.env[e.func.id], args_, kwargs_)
-        if isinstance(e.func, ast.Attribute) and e.func.attr == "_replace":
+        if isinstance(e.func, ast.Attribute) and e.func.attr in ("_replace", "_asdict"):
             base_ = self.ev(e.func.value)
             if isinstance(base_, Record):
                 args_, kwargs_ = self.arguments(e)
+                if e.func.attr == "_asdict":
+                    return dict(base_.values)
                 return Record(base_.rtype, dict(base_.values, **kwargs_))
+        if isinstance(e.func, ast.Attribute) and isinstance(e.func.value, ast.Name):
+            rt_ = self.ev(e.func)
+            if isinstance(rt_, RecordType):
+                args_, kwargs_ = self.arguments(e)
+                return self.make_record(rt_, args_, kwargs_)
         if isinstance(e.func, (ast.Name, ast.Subscript)) or (isinstance(e.func, ast.Call) and isinstance(e.func.func, ast.Attribute)
                                                               and e.func.func.attr == "get"):
             fv = self.ev(e.func)
@@ -650,6 +711,22 @@ class Machine:
                 return None
         if short in ("min", "max") and args and all(isinstance(a, (int, float)) for a in args):
             return (min if short == "min" else max)(args)
+        if short in ("pop", "setdefault") and isinstance(e.func, ast.Attribute) and isinstance(recv, dict) and args and not kwargs \
+                and not isinstance(args[0], (Opaque, list, dict)):
+            if short == "setdefault":
+                return recv.setdefault(args[0], args[1] if len(args) > 1 else None)
+            if args[0] in recv:
+                return recv.pop(args[0])
+            if len(args) > 1:
+                return args[1]
+            raise Raised(f"KeyError: {args[0]!r}")
+        if short == "pop" and isinstance(e.func, ast.Attribute) and isinstance(recv, list) and not kwargs and all(isinstance(a, int) for a in args):
+            if not recv or (args and not -len(recv) <= args[0] < len(recv)):
+                raise Raised("IndexError: pop")
+            return recv.pop(*args)
+        if short == "insert" and isinstance(e.func, ast.Attribute) and isinstance(recv, list) and len(args) == 2 and isinstance(args[0], int):
+            recv.insert(args[0], args[1])
+            return None
         parts = [render(a) for a in args] + [f"{k}={render(v)}" for k, v in kwargs.items()]
         return Opaque(f"{name}({', '.join(parts)})", ("call", name, list(args), dict(kwargs), recv))
 
@@ -776,6 +853,8 @@ class Machine:
         elif isinstance(st, ast.Return):
             raise _Return(self.ev(st.value) if st.value is not None else None)
         elif isinstance(st, ast.Raise):
+            if st.exc is None and getattr(self, "active_exception", None) is not None:
+                raise self.active_exception              # bare `raise` inside a handler
             what = ast.unparse(st.exc.func) if isinstance(st.exc, ast.Call) else (ast.unparse(st.exc) if st.exc is not None else "re-raise")
             raise Raised(what)
         elif isinstance(st, ast.Pass):
@@ -786,11 +865,7 @@ class Machine:
         elif isinstance(st, ast.Assert):
             pass
         elif isinstance(st, (ast.With,)):
-            for item in st.items:
-                v = self.enter(self.ev(item.context_expr), item.context_expr)
-                if item.optional_vars is not None:
-                    self.assign(item.optional_vars, v)
-            self.run(st.body)
+            self.with_(list(st.items), st.body)
         elif isinstance(st, ast.FunctionDef):
             self.env[st.name] = Closure(st, self)
         elif isinstance(st, (ast.Import, ast.ImportFrom, ast.Global, ast.Nonlocal)):
@@ -799,16 +874,46 @@ class Machine:
             # only exceptions of the model (Raised) are caught, by any handler
             try:
                 self.run(st.body)
-            except Raised:
+            except Raised as r_:
                 if not st.handlers:
                     self.run(st.finalbody)
                     raise
-                self.run(st.handlers[0].body)
+                outer_, self.active_exception = getattr(self, "active_exception", None), r_
+                try:
+                    self.run(st.handlers[0].body)
+                finally:
+                    self.active_exception = outer_
             else:
                 self.run(st.orelse)
             self.run(st.finalbody)
         else:
             raise Undecidable(f"statement {type(st).__name__} is outside the model")
+
+    def with_(self, items, body):
+        if not items:
+            return self.run(body)
+        item = items[0]
+        cm = self.ev(item.context_expr)
+        if isinstance(cm, GenValue) and getattr(cm, "is_context_manager", False):
+            # a @contextlib.contextmanager generator of the followed program: run to its yield, run the block, resume it
+            v = cm.open()
+            if item.optional_vars is not None:
+                self.assign(item.optional_vars, v)
+            try:
+                self.with_(items[1:], body)
+            except Raised as r:
+                if cm.close(r):
+                    return
+                raise
+            except (_Return, _Break, _Continue):
+                cm.close()
+                raise
+            cm.close()
+            return
+        v = self.enter(cm, item.context_expr)
+        if item.optional_vars is not None:
+            self.assign(item.optional_vars, v)
+        self.with_(items[1:], body)
 
     def run_function(self, fn: ast.FunctionDef):
         """returns ("return", value) or ("raise", what)"""
@@ -846,6 +951,21 @@ def module_constants(tree: ast.Module) -> Dict[str, Any]:
         if isinstance(st, ast.ClassDef) and any("NamedTuple" in ast.unparse(b) for b in st.bases):
             flds = [x for x in st.body if isinstance(x, ast.AnnAssign) and isinstance(x.target, ast.Name)]
             out[st.name] = RecordType(st.name, [x.target.id for x in flds], {x.target.id: x.value for x in flds if x.value is not None})
+        if isinstance(st, ast.ClassDef):
+            rebound = {t.attr for n in ast.walk(st) for t in ast.walk(n) if isinstance(t, ast.Attribute) and isinstance(t.ctx, (ast.Store, ast.Del))
+                       and isinstance(t.value, ast.Name) and t.value.id in ("self", "cls", st.name)}
+            for inner in st.body:
+                # constants of the class body that no method rebinds on the instance
+                if isinstance(inner, ast.Assign) and len(inner.targets) == 1 and isinstance(inner.targets[0], ast.Name) \
+                        and isinstance(inner.value, (ast.Constant, ast.Tuple)) and inner.targets[0].id not in rebound \
+                        and all(isinstance(x, ast.Constant) for x in (inner.value.elts if isinstance(inner.value, ast.Tuple) else [inner.value])):
+                    out[f"{st.name}.{inner.targets[0].id}"] = m.ev(inner.value)
+                    out.setdefault("<class constants>", set()).add(f"{st.name}.{inner.targets[0].id}")
+            for inner in st.body:
+                if isinstance(inner, ast.ClassDef) and any("NamedTuple" in ast.unparse(b) for b in inner.bases):
+                    flds = [x for x in inner.body if isinstance(x, ast.AnnAssign) and isinstance(x.target, ast.Name)]
+                    out[f"{st.name}.{inner.name}"] = RecordType(inner.name, [x.target.id for x in flds],
+                                                                {x.target.id: x.value for x in flds if x.value is not None})
         # private module-level helpers are followed when they are called (or stored in a table and called through it)
         if isinstance(st, ast.FunctionDef) and st.name.startswith("_") and not st.decorator_list:
             out[st.name] = Closure(st, None)
